@@ -293,6 +293,33 @@ def concrete_box(dl, p, q, dist):
     return None
 
 
+BOX_GRID_P = [(50.87, 4.70), (-33.92, 18.42), (-37.81, 144.96), (-54.80, -68.30), (0.5, 30.0), (59.9, 10.7)]
+BOX_GRID_R = [100.0, 1000.0, 5000.0, 20000.0]
+
+
+def box_fallback_grid(dl):
+    """Concrete grid for box_around_point, used ONLY when the tree's box computation cannot be encoded in the angle algebra (e.g. an
+    angle divided by a cosine): points at 0.9995 of the radius in 72 directions (computed here, not by the code under test) must lie
+    inside the box.  Returns None or a violation record."""
+    for p in BOX_GRID_P:
+        la, lo = math.radians(p[0]), math.radians(p[1])
+        for r in BOX_GRID_R:
+            try:
+                lat_b, lon_l, lat_t, lon_r = dl.box_around_point(p, r)
+            except Exception as e:
+                return dict(desc=f"box_around_point({p}, {r}) raised {e!r}", kind='c14', fn='box', args=[list(p), list(p), r])
+            d = 0.9995 * r / R
+            for k in range(72):
+                b = math.radians(5 * k)
+                la2 = math.asin(math.sin(la) * math.cos(d) + math.cos(la) * math.sin(d) * math.cos(b))
+                lo2 = lo + math.atan2(math.sin(b) * math.sin(d) * math.cos(la), math.cos(d) - math.sin(la) * math.sin(la2))
+                q = (math.degrees(la2), math.degrees(lo2))
+                if not (lat_b <= q[0] <= lat_t and lon_l <= q[1] <= lon_r):
+                    return dict(desc=f"box_around_point({p}, {r}) = {(lat_b, lon_l, lat_t, lon_r)} does not contain {q}, which is {gc_dist(p, q)} m from the centre",
+                                kind='c14', fn='box', args=[list(p), list(q), r])
+    return None
+
+
 DSS_GRID = [   # (f1, f2, t1, t2) at street scale (degrees): head-to-tail with a gap, reversed, parallel, crossing, T-shape, far apart
     ((50.8700, 4.7000), (50.8700, 4.7010), (50.8700, 4.7020), (50.8700, 4.7040)),
     ((50.8700, 4.7010), (50.8700, 4.7000), (50.8700, 4.7020), (50.8700, 4.7040)),
@@ -452,6 +479,16 @@ def main(tier):
                    "rounding; the relative position ti is a ratio of two angles and is only compared through 0/1 clamping", "poles and antimeridian"]
     rep.assumptions = ["sin/cos/asin/acos/atan2/half-angle/addition formulas as exact polynomial constraints (symx/angles.py)"]
     tags, known = {}, set()
+    for r in res:
+        # a tree whose box computation the angle algebra cannot express ends in a harness error (no verdict) - unless the concrete
+        # fallback grid shows, on the unmodified functions with plain floats, that the box does not contain the disc
+        if r['name'].endswith(' box') and any('unsupported' in e for e in r.get('errors', [])):
+            fb = box_fallback_grid(dl)
+            rep.extra['box_fallback_grid'] = 'violation' if fb else 'no violation on the grid; the harness error stands'
+            if fb:
+                r['violations'] = list(r.get('violations', [])) + [dict(fb, claim='box_contains_disc (concrete fallback grid: the box computation of this tree cannot be encoded)')]
+                r['errors'] = [e for e in r['errors'] if 'unsupported' not in e]
+                tags['box_path'] = tags.get('box_path', 0) + 1
     for r in sorted(res, key=lambda r: r['name']):
         rep.add_instance(r)
         for t, n in r.get('tags', {}).items():
